@@ -24,7 +24,9 @@ RULE = (
     "non-zero (guaranteed by construction, counted). Part compiled_divergence: 3-D simulator (zone width 0, "
     "no filter, forcing on) with vorticity = discrete curl of a compact random potential, compact forcing, "
     "generic velocity; after one public time_step get_vorticity_divergence_l2_norm() must stay at rounding "
-    "level. Distinct = digest of the drawn case."
+    "level. Part compiled_velocity_divergence: after a public time_step of the 2-D and 3-D simulators (all options) the "
+    "recovered velocity has zero centred divergence at every cell >= 2 from the boundary, up to the rounding of the stream-function "
+    "differences. Distinct = digest of the drawn case."
 )
 ASSUMPTIONS = [
     "exact part is a randomized polynomial-identity test over rationals (multilinear identities, degree <= 2)",
@@ -306,9 +308,68 @@ def _body_compiled(case, ctx):
     ctx.note(nontrivial=changed and float(np.max(np.abs(w))) > 0, labels=[case["mode"], case["dtype"]])
 
 
+def _veldiv_variants(tier):
+    return ["ns2d", "ns3d"]
+
+
+def _veldiv_strategy(tier, kind):
+    from .. import simcfg
+
+    @st.composite
+    def case(draw):
+        cfg = draw(simcfg.ns_config(tier, kinds=[kind], widths=(0, 0, 2), n_min_fn=lambda c: 9, n_max={2: 28, 3: 12}))
+        dim = simcfg.sim_dim(kind)
+        return {"cfg": cfg, "vorticity": draw(gen.vector_field_spec(3, kinds=["bumps", "noise", "mixed", "poly", "spikes"], max_mag_exp=4)),
+                "velocity": draw(gen.vector_field_spec(dim, kinds=["noise", "mixed", "poly", "zero"], max_mag_exp=2)),
+                "free_stream": draw(st.lists(gen.floats(-2.0, 2.0, 32), min_size=dim, max_size=dim)),
+                "dt_frac": draw(gen.floats(0.05, 1.0, 32))}
+
+    return case()
+
+
+def _veldiv_body(case, ctx):
+    """velocity recovered by the public simulators is discretely divergence-free away from the zeroed boundary ring."""
+    from .. import simcfg
+
+    cfg = case["cfg"]
+    dim = simcfg.sim_dim(cfg["sim"])
+    real_t = gen.np_dtype(cfg["dtype"])
+    eps = float(np.finfo(real_t).eps)
+    shape = tuple(cfg["shape"])
+    with ctx.repo_call(f"constructing {cfg['sim']}"):
+        sim = simcfg.build_sim(cfg)
+    w = gen.build_vector_field(case["vorticity"], shape, real_t)
+    sim.vorticity_field[...] = w[0] if dim == 2 else w
+    sim.velocity_field[...] = gen.build_vector_field(case["velocity"], shape, real_t)
+    dx = float(sim.dx)
+    umax = float(np.max(np.sum(np.abs(sim.velocity_field.astype(np.float64)), axis=0)))
+    dt = simcfg.stable_dt(cfg, dx, umax, case["dt_frac"])
+    with ctx.repo_call("time_step"):
+        sim.time_step(dt=dt, free_stream_velocity=np.array(case["free_stream"]))
+    u = sim.velocity_field.astype(np.float64)
+    div = np.zeros(shape)
+    mag = np.zeros(shape)
+    for c in range(dim):
+        a = dim - 1 - c
+        div += np.roll(u[c], -1, a) - np.roll(u[c], 1, a)
+        mag += np.abs(np.roll(u[c], -1, a)) + np.abs(np.roll(u[c], 1, a))
+    inner = (slice(2, -2),) * dim  # stencils of the cells at depth >= 2 do not touch the zeroed ring
+    # u = curl(psi)/(2dx): each velocity value carries the rounding of psi differences, ~ eps * max|psi| / dx
+    psi = sim.stream_func_field.astype(np.float64)
+    tol = 64 * eps * (mag[inner] + float(np.max(np.abs(psi))) / dx) + 64 * float(np.finfo(real_t).tiny)
+    err = np.abs(div[inner])
+    if err.size and (np.any(err > tol) or not np.all(np.isfinite(u))):
+        i = np.unravel_index(int(np.argmax(err - tol)), err.shape)
+        raise Violation(f"{cfg['sim']}: recovered velocity has centred divergence {div[inner][i]:.3e} (x 1/2dx) at interior cell "
+                        f"{tuple(int(q) + 2 for q in i)}, rounding level is {tol[i]:.3e} (cfg {cfg})")
+    ctx.note(nontrivial=bool(np.any(w)) and len(set(shape)) > 1, labels=simcfg.config_labels(cfg))
+
+
 PARTS = [
     Part(name="exact_identities", strategy=_strategy, body=_body_exact,
          examples={"quick": 1600, "thorough": 40000}, shards={"quick": 8, "thorough": 16}, variants=_ident_variants),
     Part(name="compiled_divergence", strategy=_compiled_strategy, body=_body_compiled,
          examples={"quick": 60, "thorough": 1500}, shards={"quick": 4, "thorough": 16}),
+    Part(name="compiled_velocity_divergence", strategy=_veldiv_strategy, body=_veldiv_body, variants=_veldiv_variants,
+         examples={"quick": 80, "thorough": 2000}, shards={"quick": 2, "thorough": 2}),
 ]
